@@ -329,7 +329,8 @@ ENTRY = {
 # correlated case splits (semantic keys, not source text): all tests of the
 # function that compare the two integer names / the magnitude of the value
 # are decided together under each assumed case
-DEFAULT_SPLIT = {'svd.matrix_svd': [('order', 'm', 'n')],
+DEFAULT_SPLIT = {'svd.matrix_svd': [('order', ('shape', 0, 0),
+                                    ('shape', 0, 1))],
                  'tensors.const': [('magnitude', 'v')],
                  'tensors.delta': [('magnitude', 'v')]}
 
